@@ -14,7 +14,8 @@
    codes: 0 agree, 1 crash/no-crash disagreement (implementation panics where the
    model returns, or the reverse), 2 skipped, 3 returned values differ,
    4 tested-only component crashed / hung, 5 implementation and model both panic
-   (a genuine defect the model reproduces). *)
+   (a genuine defect the model reproduces), 6 a table span (colspan / rowspan / span) built from the
+   attribute is outside the range proved in C07_table_spans_range, which the table layout indexes with. *)
 From Verif Require Export Base.GoSem Base.GoStrings Css.Urls Css.PageSel Css.HtmlAttr Css.SvgAttr Css.ColorMq Css.W3cDate.
 From Coq Require Import List ZArith NArith Bool.
 Import ListNotations.
@@ -30,6 +31,9 @@ Inductive case :=
 | CPageSel (toks : list ptok) (oc : N) (sels : list psel)
 | CNth (toks : list ptok) (oc : N) (a b : Z)
 | CIntAttr (s : list N) (minimum : Z) (oc : N) (v : Z)
+(* the call sites of integerAttribute: a <td colspan=s rowspan=s>, a <col span=s>, an empty <colgroup span=s> built
+   by /repo (hook VerifC07TableSpans); the attribute is absent when present = false *)
+| CSpans (s : list N) (present : bool) (oc : N) (colspan rowspan span gspan : Z)
 | CPar (s : list N) (oc : N) (x y : list N) (none slice : bool)
 | CSvgValue (s : list N) (oc : N) (empty : bool) (unit : N)
 | CSvgOpacity (s : list N) (oc : N)
@@ -90,6 +94,12 @@ Definition model_out (c : case) : obs :=
       opt_obs (parse_nth toks) (fun ab => OInts 0%N [fst ab; snd ab]) (OInts 1%N []) (fun k => OInts k [])
   | CIntAttr s m _ _ =>
       match integer_attribute s m with Ok v => OInts 0%N [v] | r => OInts (oc_of r) [] end
+  | CSpans s present _ _ _ _ _ =>
+      let s := if present then s else [] in
+      match cell_colspan s, cell_rowspan s, column_span s, column_group_span s with
+      | Ok c, Ok r, Ok sp, Ok g => OInts 0%N [c; r; sp; g]
+      | _, _, _, _ => OInts 2%N []
+      end
   | CPar s _ _ _ _ _ =>
       match parse_preserve_aspect_ratio s with
       | Ok p => OPar 0%N (par_x p) (par_y p) (par_none p) (par_slice p)
@@ -171,6 +181,10 @@ Definition verdict (m_oc i_oc : N) (same_value : bool) : N :=
   else if negb (N.eqb m_oc i_oc) then 3%N
   else if same_value then 0%N else 3%N.
 
+Definition spans_in_range (c r sp g : Z) : bool :=
+  (1 <=? c)%Z && (c <=? 1000)%Z && (0 <=? r)%Z && (r <=? 65534)%Z &&
+  (1 <=? sp)%Z && (sp <=? 1000)%Z && (1 <=? g)%Z && (g <=? 1000)%Z.
+
 Definition check (c : case) : N :=
   match c, model_out c with
   | CTotal _ o, _ => if (o <=? 1)%N then 0%N else 4%N
@@ -186,6 +200,10 @@ Definition check (c : case) : N :=
   | CPageSel _ oc sels, OSels m sels' => verdict m oc (negb (N.eqb oc 0) || psels_eqb sels sels')
   | CNth _ oc a b, OInts m l => verdict m oc (negb (N.eqb oc 0) || zlist_eqb l [a; b])
   | CIntAttr _ _ oc v, OInts m l => verdict m oc (negb (N.eqb oc 0) || zlist_eqb l [v])
+  | CSpans _ _ oc c r sp g, OInts m l =>
+      (* code 6: a span outside the range the table code indexes with (C07_table_spans_range): the crash is downstream *)
+      if N.eqb oc 0 && N.eqb m 0 && negb (spans_in_range c r sp g) then 6%N
+      else verdict m oc (negb (N.eqb oc 0) || zlist_eqb l [c; r; sp; g])
   | CPar s oc x y none slice, OPar m x' y' none' slice' =>
       verdict m oc (negb (N.eqb oc 0) ||
                     (Bool.eqb none none' && Bool.eqb slice slice' &&
